@@ -247,6 +247,9 @@ enum Job {
     Write { k: u64, mode: Mode, second: Option<u64>, with_seeds: bool },
     Trunc(&'static str, &'static str),
     Fsize(u64),
+    /// Crash point "before anything": the first run was interrupted before the output even
+    /// existed (during the header fetch, say). The re-run names an OUTPUT that is not there.
+    Absent,
 }
 
 struct Prepared {
@@ -327,6 +330,9 @@ fn jobs_of(p: &Prepared, tier: Tier) -> Vec<Job> {
             jobs.push(Job::Write { k, mode, second, with_seeds: rng.chance(1, 2) });
         }
     }
+    if !matches!(p.sc.out_kind, OutKind::InPlace | OutKind::BlockDev) {
+        jobs.push(Job::Absent);
+    }
     if p.sc.out_kind != OutKind::BlockDev {
         jobs.push(Job::Trunc("0,errno,5", "trunc_errno"));
         jobs.push(Job::Trunc("0,exit_before,0", "trunc_exit_before"));
@@ -379,6 +385,27 @@ fn run_job(rep: &Report, p: &Prepared, jn: usize, job: &Job) -> (Option<(String,
                 match cc::judge_final(&b, &rs, &o3) {
                     Err(e) if o3.exit != Exit::Timeout => (Some((format!("re-run after {}: {}", name, e), json!({"trunc": tm}))), None),
                     _ => (None, None),
+                }
+            }
+        }
+        Job::Absent => {
+            let _ = std::fs::remove_file(&b.out_path);
+            let o3 = rerun(dir, &b, sc, false, &format!("{}n", tag), &Faults::default());
+            rep.eval();
+            rep.count("reruns_with_the_output_not_existing_yet", 1);
+            let rs = rerun_scenario(sc, false);
+            if o3.idle_hang {
+                (Some(("re-run with the output not existing yet did not end (idle)".to_string(), json!({"absent": true}))), None)
+            } else if o3.exit == Exit::Timeout {
+                rep.inconclusive("watchdog");
+                (None, None)
+            } else {
+                match cc::judge_final(&b, &rs, &o3) {
+                    Err(e) => (Some((format!("first run interrupted before the output existed; re-run with the output as seed: {}", e), json!({"absent": true}))), None),
+                    Ok(()) => {
+                        rep.nontrivial(format!("{}:absent", p.idx));
+                        (None, None)
+                    }
                 }
             }
         }
